@@ -41,18 +41,28 @@ Section C04.
     snd (step h c) = Ok /\ Inv (fst (fst (step h c))) /\ WF (fst (fst (step h c))).
   Proof. exact step_inv. Qed.
 
-  (* store_refines_spec for all finite histories of add_node / add_const / add_link /
-     add_order_link / delete_link / delete_node.  PARTIAL: the refinement to the sequential specification is proved for
-     histories without insert_hugr; for an insert_hugr step the new state is characterised node by node and link
-     by link by C08_insert_iso_and_frame (props/C08.v) and the invariant by C04_store_inv_reachable above, but
-     [Rep A' (s_insert ...)] against the specification's own insertion is monitored (run/C04Run.v), not proved. *)
-  Theorem C04_store_inv_reachable_and_refines_spec_partial : forall (o : Op) (m : Meta) cs g',
-    s_brun (s_init 0 o m) (trace (init o m) cs) = Next g' ->
-    Inv (brun (init o m) cs) /\ Rep (brun (init o m) cs) g'.
-  Proof. exact reachable_refines. Qed.
-  Theorem C04_spec_never_rejects_partial : forall (o : Op) (m : Meta) cs,
-    s_brun (s_init 0 o m) (trace (init o m) cs) <> Bad.
-  Proof. exact reachable_never_bad. Qed.
+  (* store_refines_spec, in full: for all finite histories of add_node / add_const / add_link / add_order_link /
+     delete_link / delete_node / insert_hugr calls.  [ctrace] pairs every command with the value the model returned,
+     [s_run] runs the sequential specification on it; [annot_ok]: an insert_hugr command carries the source's own
+     history with the values returned while building it (what the harness records).  Whenever the specification
+     accepts the history (every call inside the guard), every call returned normally, the invariant holds and the
+     final state represents the specification's final state -- so every query below agrees. *)
+  Theorem C04_store_refines_spec : forall (o : Op) (m : Meta) cs g', Forall annot_ok cs ->
+    s_run (s_init 0 o m) (ctrace (init o m) cs) = Next g' ->
+    Inv (run (init o m) cs) /\ WF (run (init o m) cs) /\ Rep (run (init o m) cs) g'.
+  Proof. exact store_refines_spec. Qed.
+  (* the specification never rejects a value the model returns (fresh node indices, bijective fresh mappings) *)
+  Theorem C04_spec_never_rejects : forall (o : Op) (m : Meta) cs, Forall annot_ok cs ->
+    s_run (s_init 0 o m) (ctrace (init o m) cs) <> Bad.
+  Proof. exact spec_never_rejects. Qed.
+  Theorem C04_step_refines_with_insert : forall (h : hugr) g c h' rt r, Inv h -> WF h -> Rep h g -> annot_ok c ->
+    step h c = (h', rt, r) ->
+    match s_step g c rt with
+    | OutOfScope => True
+    | Bad => False
+    | Next g' => r = Ok /\ Inv h' /\ WF h' /\ Rep h' g'
+    end.
+  Proof. exact step_refines. Qed.
 
   (* every query returns what the specification returns on the represented state *)
   Theorem C04_iter_refines : forall (h : hugr) g, Rep h g -> Permutation (iter_nodes h) (sq_nodes g).
@@ -149,16 +159,29 @@ Definition ex_history : list (bcmd nat nat) :=
    AddLink (1, 0%Z) (2, 0%Z); AddLink (1, 0%Z) (3, 0%Z); AddLink (1, 0%Z) (4, 1%Z); AddOrder 2 3;
    DelLink (1, 0%Z) (3, 0%Z); AddLink (1, 0%Z) (3, 0%Z); DelNode 4; DelNode 3; AddNode 2 (Some 2) None 0;
    AddLink (3, 0%Z) (2, 0%Z)].
+Definition ex_source : list (bcmd nat nat) :=
+  [AddNode 1 None None 0; AddNode 1 None None 0; DelNode 1; AddNode 2 (Some 2) (Some 1%Z) 0;
+   AddLink (1, 0%Z) (2, 0%Z); AddLink (1, 0%Z) (2, 0%Z); AddOrder 2 1].
+Definition ex_full : list (cmd nat nat) :=
+  map (@Basic nat nat) ex_history ++
+  [Insert 5 0 0 (trace (init 5 0) ex_source) (Some 2); Basic (AddLink (1, 0%Z) (6, 1%Z)); Basic (DelNode 3)].
 Example C04_premises_satisfiable :
-  exists g', s_brun (s_init 0 0 0) (trace (init 0 0) ex_history) = Next g' /\ length (a_links g') = 2.
-Proof. eexists. split; vm_compute; reflexivity. Qed.
+  Forall annot_ok ex_full /\
+  exists g', s_run (s_init 0 0 0) (ctrace (init 0 0) ex_full) = Next g' /\ length (a_links g') = 5 /\ length (a_nodes g') = 6.
+Proof.
+  split.
+  - unfold ex_full. apply Forall_app. split; [apply Forall_forall; intros c Hc; apply in_map_iff in Hc; destruct Hc as (b & <- & _); exact I|].
+    repeat constructor.
+  - eexists. split; [vm_compute; reflexivity|]. split; vm_compute; reflexivity.
+Qed.
 
 Print Assumptions C04_init.
 Print Assumptions C04_store_inv_reachable.
 Print Assumptions C04_step_inside_guard_returns.
 Print Assumptions C04_step_refines.
-Print Assumptions C04_store_inv_reachable_and_refines_spec_partial.
-Print Assumptions C04_spec_never_rejects_partial.
+Print Assumptions C04_store_refines_spec.
+Print Assumptions C04_spec_never_rejects.
+Print Assumptions C04_step_refines_with_insert.
 Print Assumptions C04_iter_refines.
 Print Assumptions C04_len_refines.
 Print Assumptions C04_lookup_refines.
